@@ -69,7 +69,11 @@ func RepoDir() string {
 }
 
 // Load loads the root module's packages for linux/amd64 (non-test files).
-func Load(dir string, goos string) (*Prog, error) {
+func Load(dir string, goos string) (*Prog, error) { return LoadOverlay(dir, goos, nil) }
+
+// LoadOverlay: as Load, with the given files (absolute path -> text) replacing or adding to the
+// files on disk (used to analyse a variant of the tree without writing to it).
+func LoadOverlay(dir string, goos string, initial map[string][]byte) (*Prog, error) {
 	if goos == "" {
 		goos = "linux"
 	}
@@ -81,23 +85,36 @@ func Load(dir string, goos string) (*Prog, error) {
 		Tests: false,
 		Env:   env,
 	}
+	if len(initial) > 0 {
+		cfg.Overlay = initial
+	}
 	pkgs, err := packages.Load(cfg, "./...")
 	if err != nil {
 		return nil, fmt.Errorf("packages.Load: %w", err)
 	}
 	// normalisation: see through helper functions that did not exist on the pinned tree
 	overlay := map[string][]byte{}
+	for k, v := range initial {
+		overlay[k] = v
+	}
 	var normLog []string
 	if os.Getenv("SCIONCHECK_NOINLINE") == "" && !hasErrors(pkgs) {
 		// first: pinned names for the variables of pinned functions
 		if changed, log := RenameBackOverlay(pkgs, overlay); len(changed) > 0 {
 			cfg2 := *cfg
-			cfg2.Overlay = changed
+			next := map[string][]byte{}
+			for k, v := range overlay {
+				next[k] = v
+			}
+			for k, v := range changed {
+				next[k] = v
+			}
+			cfg2.Overlay = next
 			pkgs2, err2 := packages.Load(&cfg2, "./...")
 			if err2 != nil || hasErrors(pkgs2) {
 				normLog = append(normLog, fmt.Sprintf("renaming locals back discarded: rewritten source does not type-check (%s)", firstError(pkgs2, err2)))
 			} else {
-				overlay, pkgs = changed, pkgs2
+				overlay, pkgs = next, pkgs2
 				normLog = append(normLog, log...)
 			}
 		}
